@@ -11,10 +11,13 @@
           and processes                               slices and Cat on the left, 1-2 clock domains, resets) converted
                                                       by the real convert(), simulated by the real Simulator; VerilogSem
                                                       steps the parsed text through the recorded input sequence.
- Layer 3  memories and  T  same clause                the memory template of litex/gen/fhdl/memory.py and a corpus of
-          real cores                                  real LiteX blocks at small parameters.
-Mismatches are classified by TLC (hypotheses of VerilogSem, see ExprJudge.tla); every distinct classification is one
-signature, reported once with its smallest input.
+ Layer 3  memories and  T  same clauses               the memory template of litex/gen/fhdl/memory.py (every port mode,
+          real cores                                  granularity, init; clause ImageLegal for the $readmemh data file)
+                                                      and a corpus of real LiteX blocks at small parameters.
+ VlogTrace.tla also carries the structural clause SingleDriver (no variable is assigned by two processes).
+Mismatches are classified by TLC (hypotheses of VerilogSem, see ExprJudge.tla / the hypothesis chain of VlogTrace.tla);
+every distinct classification is one signature, reported once with its smallest input.  The verdict is always given by the
+plain IEEE reading; a hypothesis only names the cause of an established mismatch.
 """
 import json
 import multiprocessing as mp
